@@ -89,6 +89,9 @@ func init() {
 			// a production process that happens to carry an argument starting with -bench (a CLI flag of the application)
 			js = append(js, Job{Sub: "table", Mode: "prod", From: 1, To: 2, Args: []string{"-benchlabel=nightly"}, Timeout: 20 * time.Minute})
 			js = append(js, Job{Sub: "overlap", Mode: "prod", From: 0, To: pick(tier, 10, 200), Args: []string{"-benchlabel=nightly"}, Timeout: 20 * time.Minute})
+			// a production process that was started by a debugger (its parent's argv[0] ends in /dlv): the rule is the same
+			js = append(js, Job{Sub: "table", Mode: "prod", From: 2, To: 3, Parent: "dlv", Timeout: 20 * time.Minute})
+			js = append(js, Job{Sub: "table", Mode: "prod", From: 3, To: 4, Parent: "dlv", Timeout: 20 * time.Minute})
 			return append(js, chunk("overlap", "prod", pick(tier, 60, 6000), pick(tier, 30, 400), Job{Timeout: 20 * time.Minute})...)
 		},
 	})
